@@ -454,18 +454,6 @@ Proof.
 Qed.
 
 (* ================================================================ the whole function *)
-Lemma apply_slice_minor_lt' m ud imax sl :
-  (sl = None -> Forall (fun r => r < imax) (idx m)) ->
-  Forall (fun e => e_minor e < n_out_of imax sl) (apply_slice sl (all_entries m ud)).
-Proof.
-  intros HF. apply Forall_forall. intros e He. destruct sl as [[lo hi]|]; cbn in *.
-  - apply in_map_iff in He. destruct He as (e0 & <- & He0). apply filter_In in He0.
-    destruct He0 as [_ Hs]. unfold in_slice in Hs. cbn in Hs. apply andb_true_iff in Hs.
-    destruct Hs as [H1 H2]. apply Nat.leb_le in H1. apply Nat.ltb_lt in H2. cbn. lia.
-  - unfold all_entries in He. apply in_map_iff in He. destruct He as (k & <- & Hk).
-    apply in_seq in Hk. cbn. specialize (HF eq_refl). rewrite Forall_forall in HF. apply HF. apply nth_In. lia.
-Qed.
-
 Lemma existsb_ge_false n l : Forall (fun r => r < n) l -> existsb (fun r => n <=? r) l = false.
 Proof.
   induction 1 as [|x t Hx _ IH]; cbn; [reflexivity|]. rewrite IH.
@@ -494,7 +482,7 @@ Proof.
   assert (G3 : ud && (length Es =? 0) = false).
   { destruct ud; [|reflexivity]. cbn [andb]. apply Nat.eqb_neq. apply Hnz. reflexivity. }
   rewrite G3.
-  assert (HT : off Es n = length Es) by (apply off_total; apply apply_slice_minor_lt'; exact Hi).
+  assert (HT : off Es n = length Es) by (apply off_total; apply apply_slice_minor_lt; exact Hi).
   assert (CC : concat (chunks_of es L) = es) by (apply chunks_of_concat; exact HL).
   destruct (fill_blocks_spec (chunks_of es L) sl E n (S n) 0 (0 :: cumsum_from 0 (cnts Es n)))
     as (bl & EQ & CH).
